@@ -220,7 +220,7 @@ CLAIMED["C18"] = dict(
           " extendInterpolationTable on a 3-row table (0 or 2 new points per side, all 16 combinations): new lower points ++ old rows with their old values ++ new upper points, ordinates belong to their abscissae, strictly increasing, function evaluated only at the new points, adaptive bookkeeping reset."
           " Outside the table derivative() differentiates the mode-respecting evaluation (_evaluateOutOfBounds of the same object), at the out-of-range entries only."),
     note="Bound: array length <= 2, rank <= 2, components <= 2. Not decided: spline accuracy, adaptive updates, extendInterpolationTable "
-         "(np.arange with symbolic bounds), file round trip." + " Not modelled: text formatting/parsing of floats (a change of the savetxt format is not seen; seed C18e).",
+         "(np.arange with symbolic bounds), file round trip." + " File round trip (bounded, file system stubbed): rows are abscissa then values, single-space delimiter, a format with >= 15 significant digits (precondition of the assumed text round trip), what is read back is installed unchanged. The numerical effect of formatting itself is not modelled.",
     design="3 (C18)")
 
 CLAIMED["C07"] = dict(
